@@ -30,10 +30,12 @@ def run(c: Check):
     while len(pairs) < npairs + (1 if c.replay else 0) * 0 and tries < npairs * 4:
         tries += 1
         d = g.graph(p_cycle=0.15, p_meta=0.1, p_pre=0.4, p_init=0.8)
-        r = identgen.signature_edit(c.rng, d)
+        # a quota of the rarer families: the producing task upstream, pre-task <-> init-task moves, init order
+        prefer = [None, "pre-to-init", "pre-to-init", None, "upstream-task", None, "init-order", "pre-to-init"][tries % 8]
+        r = identgen.signature_edit(c.rng, d, prefer)
         if r is None:
             continue
-        pairs.append(dict(a=d, b=r[0], kind=r[1], node=r[2], which=r[3]))
+        pairs.append(dict(a=r[0].pop("base", d), b=r[0], kind=r[1], node=r[2], which=r[3]))
     coll = [dict(a=a, b=b, kind="collision:" + k, node=0, which="collide", wf_a=wa, wf_b=wb)
             for a, b, k, wa, wb in identgen.collision_pairs()]
     allp = pairs + coll
@@ -80,8 +82,32 @@ def run(c: Check):
         if p["which"] == "collide":
             c.count("collides:" + str(fa == fb))
             continue     # agreement with the model is what is checked (correspondence)
+        if p["kind"] == "upstream-task":
+            # the edit sits in the producing task t: it counts when t really differs in the two built graphs and
+            # the compared node reaches t in both (an action of the description may have failed or been overwritten)
+            t = p["b"].get("edited_node")
+
+            def reach(e, r):
+                seen, todo = set(), [r]
+                while todo:
+                    m = todo.pop()
+                    if m in seen or m >= len(e["nodes"]):
+                        continue
+                    seen.add(m)
+                    # the raw identifier does not follow pre/init tasks, nor Meta/Option (ignored) parameters
+                    ign_ = {bytes(a_["name"]).decode() for a_ in e["classes"][e["nodes"][m]["cls"]]["args"] if a_["ignored"]}
+                    nd_ = dict(e["nodes"][m], pre=[], init=[],
+                               fields=[f_ for f_ in e["nodes"][m]["fields"] if bytes(f_[0]).decode() not in ign_])
+                    # a configuration flagged meta is outside the signature of what holds it
+                    todo.extend(q for q in identgen._export_succs(nd_)
+                                if q < len(e["nodes"]) and e["nodes"][q].get("meta") is not True)
+                return seen
+            if (t is None or p["exp_a"]["nodes"][t] == p["exp_b"]["nodes"][t]
+                    or t not in reach(p["exp_a"], p["node"]) or t not in reach(p["exp_b"], p["node"])):
+                c.count("edit-had-no-effect")
+                continue
         # guard: the edit may have been neutralised by the build (e.g. value coerced); only count real changes
-        if p["exp_a"]["nodes"][p["node"]] == p["exp_b"]["nodes"][p["node"]] and p["which"] == "raw" \
+        elif p["exp_a"]["nodes"][p["node"]] == p["exp_b"]["nodes"][p["node"]] and p["which"] == "raw" \
                 and p["exp_a"]["classes"][p["exp_a"]["nodes"][p["node"]]["cls"]] == p["exp_b"]["classes"][p["exp_b"]["nodes"][p["node"]]["cls"]]:
             c.count("edit-had-no-effect")
             continue
